@@ -64,6 +64,8 @@ type history struct {
 	shadow  map[string]*Obj // last content both roots agreed on, per path
 	rounds  []roundRecord
 	seeding string
+	tpSig   string   // "listed" if the quiescent flushes reported transition problems
+	tpList  []string
 }
 
 func (h *history) logf(format string, a ...any) {
@@ -498,14 +500,20 @@ func (h *history) quiescent() error {
 		h.count("l3_quiescent_flush_errors", 1)
 		return nil
 	}
+	// C04 is conditioned on every planned change having been applied. In these
+	// histories nothing interferes with a cycle and the process may do anything
+	// to both roots, so a change mutagen planned and then could not apply is its
+	// own doing; it does not excuse what follows, but it is made part of the
+	// violation signature so that such a case can be told apart.
 	_, tp1 := problemsOf(st1)
 	_, tp2 := problemsOf(st2)
+	tpSig := "none"
 	if len(tp1)+len(tp2) > 0 {
-		// the property is conditioned on every planned change having been applied
-		h.count("l3_quiescent_skipped_transition_problems", 1)
-		h.logf("quiescent: transition problems %q %q: precondition of C04 not met", tp1, tp2)
-		return nil
+		tpSig = "listed"
+		h.count("l3_quiescent_with_transition_problems", 1)
+		h.logf("quiescent: transition problems %q %q", tp1, tp2)
 	}
+	h.tpSig, h.tpList = tpSig, append(tp1, tp2...)
 	sigParts := []string{"quiescent", mode}
 
 	// (1) the second quiescent flush leaves both roots untouched
@@ -520,7 +528,7 @@ func (h *history) quiescent() error {
 
 	// (2) ... and the recorded last-synchronized state
 	if !proto.Equal(arch1, arch2) {
-		h.violation("l3-quiescent-flush-changed-archive", nil,
+		h.violation("l3-quiescent-flush-changed-archive", map[string]string{"transition_problems": tpSig},
 			fmt.Sprintf("%s: a second flush without any edit changed the session archive (%d -> %d entries)", mode, arch1.Content.Count(), arch2.Content.Count()),
 			map[string]any{"archive_before": describeEntry(arch1.Content), "archive_after": describeEntry(arch2.Content)})
 	}
@@ -556,9 +564,9 @@ func (h *history) quiescent() error {
 		if len(aCh)+len(bCh) == 0 {
 			which = "ancestor-only"
 		}
-		h.violation("l3-recorded-state-not-fixpoint", map[string]string{"plans": which},
+		h.violation("l3-recorded-state-not-fixpoint", map[string]string{"plans": which, "transition_problems": tpSig},
 			fmt.Sprintf("%s: after two quiescent flushes with every planned change applied, reconciling the archive on disk with fresh scans of both roots still plans %d ancestor, %d alpha and %d beta changes: %q", mode, len(ancCh), len(aCh), len(bCh), d),
-			map[string]any{"planned": d, "archive": describeEntry(arch2.Content)})
+			map[string]any{"planned": d, "archive": describeEntry(arch2.Content), "transition_problems": h.tpList})
 	}
 	h.count("l3_fixpoint_reconciliations", 1)
 	if len(conflicts) > 0 {
@@ -616,15 +624,15 @@ func (h *history) converged(p string, a, b *core.Entry, listed []string, n *int)
 		if a == nil && b == nil {
 			return
 		}
-		h.violation("l3-not-converged", map[string]string{"difference": "presence"},
+		h.violation("l3-not-converged", map[string]string{"difference": "presence", "transition_problems": h.tpSig},
 			fmt.Sprintf("%s: after quiescent flushes %s exists on one side only (alpha %s, beta %s) and no listed conflict covers it (listed %q)", h.spec.Mode, quote(p), describeEntry(a), describeEntry(b), listed),
-			map[string]any{"path": quote(p), "alpha": describeEntry(a), "beta": describeEntry(b), "conflicts": listed})
+			map[string]any{"path": quote(p), "alpha": describeEntry(a), "beta": describeEntry(b), "conflicts": listed, "transition_problems": h.tpList})
 		return
 	}
 	if a.Kind != b.Kind || a.Executable != b.Executable || string(a.Digest) != string(b.Digest) || a.Target != b.Target {
-		h.violation("l3-not-converged", map[string]string{"difference": "content"},
+		h.violation("l3-not-converged", map[string]string{"difference": "content", "transition_problems": h.tpSig},
 			fmt.Sprintf("%s: after quiescent flushes the roots differ at %s (alpha %s, beta %s) and no listed conflict covers it (listed %q)", h.spec.Mode, quote(p), describeEntry(a), describeEntry(b), listed),
-			map[string]any{"path": quote(p), "alpha": describeEntry(a), "beta": describeEntry(b), "conflicts": listed})
+			map[string]any{"path": quote(p), "alpha": describeEntry(a), "beta": describeEntry(b), "conflicts": listed, "transition_problems": h.tpList})
 		return
 	}
 	names := map[string]bool{}
